@@ -96,6 +96,9 @@ func TestC08Replay(t *testing.T) {
 		if ci%4 == 0 {
 			forms = append(forms, "relative", "peruser", "lockedout")
 		}
+		if ci%4 == 1 {
+			forms = append(forms, "foreign")
+		}
 		for _, form := range forms {
 			name := "vuser"
 			if form == "peruser" {
@@ -103,6 +106,16 @@ func TestC08Replay(t *testing.T) {
 				config.Server.Permissions.Default = []string{"^/.*"}
 				config.Server.Permissions.Users = map[string][]string{"alice": rules}
 				name = "alice"
+			}
+			if form == "foreign" {
+				// rules of another permission type stand between the readfiles rules: they concern something else and are
+				// skipped, whatever they say and wherever they stand
+				mixed := []string{}
+				for k, r := range rules {
+					mixed = append(mixed, []string{"audit:^/.*", "audit:!^/.*", "runcommands:!key\\.txt$"}[(ci+k)%3], r)
+				}
+				mixed = append(mixed, "audit:!^/.*")
+				config.Server.Permissions.Default = mixed
 			}
 			if form == "lockedout" {
 				// an account with an empty rule list of its own is locked out, however permissive the default rules are
